@@ -127,6 +127,22 @@ def gen(chk):
                         ml = body.replace("os%s@" % add, "os%s%s@" % (lay, add))
                         cases.append(("layout/%s@/%s" % (add, form), pre + ml + "\nr=@{|e| e.i if e.proto == Obj && e.keys.has?('i) else e}", tr,
                                       (oc[0], oc[1].replace("<o1>", "1").replace("<o2>", "2").replace("<o3>", "3"))))
+    # a nil element among objects, all three forms, every additional context; also written on a continuation line with a chain argument
+    for add in ADDS:
+        pre = "B := %{1: 'v, 2: 'v, 3: 'v}\nos := [mk(1, B), nil, mk(3, B)]\n"
+        if add == "&":
+            tr, out = ["c1", "c3"], "[10, 30]"
+        elif add == "~":
+            tr, out = ["c1", "c3"], "[10, nil, 30]"
+        else:
+            tr, out = ["c1"], None       # nil has no property m / nil.m fails
+        for form, expr in (("prop", "os%s@m" % add), ("lit", "os%s@{|x| x.m}" % add), ("var", "f := {|x| x.m}\nr := os%s@^f" % add)):
+            body = expr if form == "var" else "r := " + expr
+            oc = ("val", out) if out else ("err", "property `m` is not defined.")
+            cases.append(("nilelem/%s@/%s" % (add, form), pre + body + "\nr", tr, oc))
+            if out:
+                ml = body.replace("os%s@" % add, "os # note\n  |%s@([9])" % add)
+                cases.append(("layout-arg/%s@/%s" % (add, form), pre + ml + "\nr", tr, ("val", "[9, " + out[1:])))
     # elements that lack the property (property form): NoPropErr is a failed result
     for add in ADDS:
         pre = "B := %{1: 'v, 2: 'v, 3: 'v}\nos := [mk(1, B), {i: 2}, mk(3, B)]\n"
